@@ -1082,7 +1082,7 @@ func updateFrame(name string, setCols []string, before, after map[string]*Snap, 
 		return nil
 	}
 	if !sameStrs(b.Header, a.Header) {
-		bad = append(bad, "update_changed_header")
+		return append(bad, "update_changed_header")
 	}
 	if len(a.Rows) != len(b.Rows) || !sameStrs(a.IDs, b.IDs) {
 		return append(bad, "update_changed_row_set_or_order")
@@ -1902,7 +1902,17 @@ func (r *Runner) Exec(st *Stmt, cancelAt int64) *Outcome {
 			}
 		}
 		if st.Check != nil && matchOK && !r.OnlyFailureLaws {
-			for _, law := range st.Check(before, after, matched, out.Counts) {
+			// the laws are evaluated on whatever the implementation returned: a table of an unexpected shape is a finding
+			// with its program, never a crash of the harness
+			laws := func() (laws []string) {
+				defer func() {
+					if p := recover(); p != nil {
+						laws = append(laws, "table_shape_unexpected")
+					}
+				}()
+				return st.Check(before, after, matched, out.Counts)
+			}()
+			for _, law := range laws {
 				rp := replay()
 				rp["counts_reported"] = countsStr(out.Counts)
 				rp["matched_by_select"] = matched
